@@ -107,4 +107,367 @@ theorem nsum_single (n : Nat) (w : Nat → Nat) (l r : Nat) (hl : l < n) (hr : r
   exact rsum_single (w l) r hr (fun s => F l s)
 
 end nested
+
+/-! ## ancestors -/
+section ancestors
+
+theorem ancs_cons (ps : List Int) (i : Nat) :
+    ancs ps i = i :: (if ps.getD i (-1) < 0 then [] else ancsFuel ps i (ps.getD i (-1)).toNat) := rfl
+
+theorem ancsFuel_indep {ps : List Int} (hwf : PWF ps) : ∀ f i, i < f → ancsFuel ps f i = ancs ps i := by
+  intro f
+  induction f using Nat.strong_induction_on with
+  | _ f ih =>
+    intro i hi
+    cases f with
+    | zero => omega
+    | succ f =>
+      rw [ancs_cons]
+      simp only [ancsFuel]
+      by_cases hneg : ps.getD i (-1) < 0
+      · rw [if_pos hneg, if_pos hneg]
+      · rw [if_neg hneg, if_neg hneg]
+        have hp := hwf i
+        have hlt : (ps.getD i (-1)).toNat < i := by omega
+        rw [ih f (Nat.lt_succ_self f) _ (by omega)]
+        by_cases hif : i = f
+        · subst hif
+          rw [ih i (Nat.lt_succ_self i) _ hlt]
+        · rw [ih i (by omega) _ hlt]
+
+theorem ancs_unfold {ps : List Int} (hwf : PWF ps) (i : Nat) :
+    ancs ps i = i :: (if ps.getD i (-1) < 0 then [] else ancs ps (ps.getD i (-1)).toNat) := by
+  rw [ancs_cons]
+  by_cases hneg : ps.getD i (-1) < 0
+  · rw [if_pos hneg, if_pos hneg]
+  · rw [if_neg hneg, if_neg hneg]
+    have hp := hwf i
+    rw [ancsFuel_indep hwf i _ (by omega)]
+
+theorem self_mem_ancs (ps : List Int) (i : Nat) : i ∈ ancs ps i := by
+  rw [ancs_cons]; exact List.mem_cons_self
+
+theorem ancs_le {ps : List Int} (hwf : PWF ps) : ∀ i a, a ∈ ancs ps i → a ≤ i := by
+  intro i
+  induction i using Nat.strong_induction_on with
+  | _ i ih =>
+    intro a ha
+    rw [ancs_unfold hwf i] at ha
+    rcases List.mem_cons.mp ha with rfl | ha'
+    · exact Nat.le_refl _
+    · by_cases hneg : ps.getD i (-1) < 0
+      · rw [if_pos hneg] at ha'; exact absurd ha' List.not_mem_nil
+      · rw [if_neg hneg] at ha'
+        have hp := hwf i
+        have := ih (ps.getD i (-1)).toNat (by omega) a ha'
+        omega
+
+end ancestors
+
+/-! ## dof level -/
+section doflevel
+variable {R : Type} [CommRing R]
+
+/-- `cdof` row `r` of link `l` -/
+def cAt (cdof : List (List (Motion R))) (l r : Nat) : Motion R := (cdof.getD l []).getD r Motion.zero
+/-- number of dofs of link `l` -/
+def wAt (cdof : List (List (Motion R))) (l : Nat) : Nat := (cdof.getD l []).length
+def armAt (arm : List (List R)) (l r : Nat) : R := (arm.getD l []).getD r 0
+
+/-- joint-space velocity of link `l`: `Σ_{dofs r of l} cdof_{l,r} · x_{l,r}` -/
+def Ulink (cdof : List (List (Motion R))) (X : Nat → Nat → R) (l : Nat) : Motion R :=
+  mrsum (wAt cdof l) fun r => mulr (cAt cdof l r) (X l r)
+
+/-- `v_k(x)`: sum of `cdof_i x_i` over the dofs of the ancestors-or-self of link `k` -/
+def velAnc (ps : List Int) (cdof : List (List (Motion R))) (X : Nat → Nat → R) (k : Nat) : Motion R :=
+  mrsum (k + 1) fun a => if (ancs ps k).contains a then Ulink cdof X a else Motion.zero
+
+/-- `massEntry` without the armature -/
+def massOff (ps : List Int) (C : List (Inertia R)) (cdof : List (List (Motion R))) (l r a s : Nat) : R :=
+  let low := fun (l r a s : Nat) =>
+    if (ancs ps l).contains a then mxRaw (C.getD l dI) (cAt cdof l r) (cAt cdof a s) else 0
+  if a < l ∨ (a = l ∧ s ≤ r) then low l r a s else low a s l r
+
+theorem massEntry_eq (ps : List Int) (C : List (Inertia R)) (cdof : List (List (Motion R)))
+    (arm : List (List R)) (l r a s : Nat) :
+    massEntry ps C cdof arm l r a s
+      = massOff ps C cdof l r a s + (if a = l ∧ s = r then armAt arm l r else 0) := by
+  unfold massEntry massOff armAt cAt dI
+  simp only
+  split <;> simp
+
+theorem massOff_symm (ps : List Int) (C : List (Inertia R)) (cdof : List (List (Motion R)))
+    (l r a s : Nat) : massOff ps C cdof l r a s = massOff ps C cdof a s l r := by
+  unfold massOff
+  simp only
+  by_cases h1 : a = l
+  · subst h1
+    by_cases h2 : s = r
+    · subst h2; rfl
+    · have h2' : ¬ r = s := fun h => h2 h.symm
+      rcases Nat.lt_or_gt_of_ne h2 with g | g
+      · have g1 : s ≤ r := Nat.le_of_lt g
+        have g2 : ¬ r ≤ s := Nat.not_le.mpr g
+        simp [h2, h2', g1, g2]
+      · have g1 : r ≤ s := Nat.le_of_lt g
+        have g2 : ¬ s ≤ r := Nat.not_le.mpr g
+        simp [h2, h2', g1, g2]
+  · have h1' : ¬ l = a := fun h => h1 h.symm
+    rcases Nat.lt_or_gt_of_ne h1 with g | g
+    · have g2 : ¬ l < a := Nat.not_lt.mpr (Nat.le_of_lt g)
+      simp [h1, h1', g, g2]
+    · have g2 : ¬ a < l := Nat.not_lt.mpr (Nat.le_of_lt g)
+      simp [h1, h1', g, g2]
+
+theorem mxRaw_eq_bil (C : Inertia R) (ci cj : Motion R) : mxRaw C ci cj = bil C cj ci := rfl
+
+/-- off-diagonal block (`a < l`) -/
+theorem massOff_lt (ps : List Int) (C : List (Inertia R)) (cdof : List (List (Motion R)))
+    (l r a s : Nat) (h : a < l) :
+    massOff ps C cdof l r a s
+      = if (ancs ps l).contains a then bil (C.getD l dI) (cAt cdof a s) (cAt cdof l r) else 0 := by
+  unfold massOff
+  simp only [Or.inl h, if_true, mxRaw_eq_bil]
+
+/-- diagonal block -/
+theorem massOff_diag (ps : List Int) (C : List (Inertia R)) (cdof : List (List (Motion R)))
+    (l r s : Nat) (hC : SymmI (C.getD l dI)) :
+    massOff ps C cdof l r l s = bil (C.getD l dI) (cAt cdof l r) (cAt cdof l s) := by
+  unfold massOff
+  have hm : (ancs ps l).contains l = true := by
+    rw [List.contains_iff_mem]; exact self_mem_ancs ps l
+  simp only [hm, if_true, mxRaw_eq_bil, Nat.lt_irrefl, false_or, true_and]
+  split
+  · exact bil_symm hC _ _
+  · rfl
+
+theorem dI_symm : SymmI (dI : Inertia R) := by
+  simp [SymmI, dI, M3.zero, V3.zero]
+
+theorem foldl_revStep_symm (steps : List (Nat × Int)) : ∀ (acc : List (Inertia R)),
+    (∀ x ∈ acc, SymmI x) → ∀ x ∈ steps.foldl (revStep inertiaAdd) acc, SymmI x := by
+  induction steps with
+  | nil => intro acc h; exact h
+  | cons ip rest ih =>
+    intro acc h
+    simp only [List.foldl]
+    apply ih
+    unfold revStep
+    split
+    · exact h
+    · split
+      · rename_i v hv
+        have hvs : SymmI v := h v (List.mem_of_getElem? hv)
+        intro x hx
+        rw [List.mem_iff_getElem?] at hx
+        obtain ⟨k, hk⟩ := hx
+        rw [List.getElem?_modify] at hk
+        cases hkk : acc[k]? with
+        | none => rw [hkk] at hk; simp at hk
+        | some y =>
+          rw [hkk] at hk
+          have hy : SymmI y := h y (List.mem_of_getElem? hkk)
+          simp only [Option.map_eq_map, Option.map_some, Option.some.injEq] at hk
+          rw [← hk]
+          split
+          · exact hy.add hvs
+          · exact hy
+      · exact h
+
+theorem crb_symm (ps : List Int) (I : List (Inertia R)) (h : ∀ x ∈ I, SymmI x) (l : Nat) :
+    SymmI ((crb ps I).getD l dI) := by
+  have hall := foldl_revStep_symm ((List.range ps.length).zip ps).reverse I h
+  rw [List.getD_eq_getElem?_getD]
+  cases hk : (crb ps I)[l]? with
+  | none => exact dI_symm
+  | some y => exact hall y (List.mem_of_getElem? hk)
+
+theorem mrsum_congr {n : Nat} {f g : Nat → Motion R} (h : ∀ i, i < n → f i = g i) :
+    mrsum n f = mrsum n g := by
+  induction n with
+  | zero => rfl
+  | succ n ih =>
+    simp only [mrsum]
+    rw [ih (fun i hi => h i (Nat.lt_succ_of_lt hi)), h n (Nat.lt_succ_self n)]
+
+theorem mrsum_zero (n : Nat) : mrsum n (fun _ => (Motion.zero : Motion R)) = Motion.zero := by
+  induction n with
+  | zero => rfl
+  | succ n ih => simp only [mrsum, ih, madd_zero]
+
+/-- extending a sum by vanishing terms -/
+theorem mrsum_extend {m n : Nat} (hmn : m ≤ n) (f : Nat → Motion R)
+    (h : ∀ i, m ≤ i → i < n → f i = Motion.zero) : mrsum n f = mrsum m f := by
+  induction n with
+  | zero => have : m = 0 := by omega
+            subst this; rfl
+  | succ n ih =>
+    by_cases hm : m = n + 1
+    · subst hm; rfl
+    · simp only [mrsum]
+      rw [h n (by omega) (Nat.lt_succ_self n), madd_zero]
+      exact ih (by omega) (fun i h1 h2 => h i h1 (Nat.lt_succ_of_lt h2))
+
+/-- `Σ_{a<l} [a ∈ ancs l] U a` is the velocity of the parent of `l` -/
+theorem mrsum_ancs_lt {ps : List Int} (hwf : PWF ps) (cdof : List (List (Motion R)))
+    (X : Nat → Nat → R) (l : Nat) :
+    mrsum l (fun a => if (ancs ps l).contains a then Ulink cdof X a else Motion.zero)
+      = vpar ps (velAnc ps cdof X) l := by
+  unfold vpar
+  by_cases hneg : ps.getD l (-1) < 0
+  · rw [if_pos hneg]
+    have : ∀ a, a < l → (if (ancs ps l).contains a then Ulink cdof X a else Motion.zero) = Motion.zero := by
+      intro a ha
+      have hna : (ancs ps l).contains a = false := by
+        rw [Bool.eq_false_iff]; intro hc
+        rw [List.contains_iff_mem, ancs_unfold hwf l, if_pos hneg] at hc
+        simp at hc; omega
+      rw [hna]; rfl
+    rw [mrsum_congr this, mrsum_zero]
+  · rw [if_neg hneg]
+    have hp := hwf l
+    set p := (ps.getD l (-1)).toNat with hpdef
+    have hpl : p < l := by omega
+    unfold velAnc
+    have hiff : ∀ a, a < l → ((ancs ps l).contains a = (ancs ps p).contains a) := by
+      intro a ha
+      rw [ancs_unfold hwf l, if_neg hneg, List.contains_cons]
+      have : (a == l) = false := by
+        rw [beq_eq_false_iff_ne]; omega
+      rw [this, Bool.false_or]
+    have h1 : mrsum l (fun a => if (ancs ps l).contains a then Ulink cdof X a else Motion.zero)
+        = mrsum l (fun a => if (ancs ps p).contains a then Ulink cdof X a else Motion.zero) :=
+      mrsum_congr (fun a ha => by rw [hiff a ha])
+    rw [h1]
+    apply mrsum_extend (by omega)
+    intro a h1 _
+    have hna : (ancs ps p).contains a = false := by
+      rw [Bool.eq_false_iff]; intro hc
+      rw [List.contains_iff_mem] at hc
+      have := ancs_le hwf p a hc
+      omega
+    rw [hna]; rfl
+
+/-- the recursion of the ancestor-sum velocity -/
+theorem velAnc_rec {ps : List Int} (hwf : PWF ps) (cdof : List (List (Motion R)))
+    (X : Nat → Nat → R) (l : Nat) :
+    velAnc ps cdof X l = vpar ps (velAnc ps cdof X) l + Ulink cdof X l := by
+  rw [← mrsum_ancs_lt hwf cdof X l]
+  conv_lhs => unfold velAnc
+  simp only [mrsum]
+  have hm : (ancs ps l).contains l = true := by
+    rw [List.contains_iff_mem]; exact self_mem_ancs ps l
+  rw [hm, if_pos rfl]
+
+theorem bil_ite_left (I : Inertia R) (c : Bool) (u v : Motion R) :
+    bil I (if c then u else Motion.zero) v = if c then bil I u v else 0 := by
+  cases c <;> simp [bil_zero_left]
+
+/-- `bil C (U a) (U l)` expanded over the dofs of both links -/
+theorem bil_Ulink (C : Inertia R) (cdof : List (List (Motion R))) (X : Nat → Nat → R) (a l : Nat) :
+    bil C (Ulink cdof X a) (Ulink cdof X l)
+      = rsum (wAt cdof a) fun s => rsum (wAt cdof l) fun r =>
+          X a s * X l r * bil C (cAt cdof a s) (cAt cdof l r) := by
+  unfold Ulink
+  rw [bil_mrsum_left]
+  apply rsum_congr; intro s _
+  rw [bil_mrsum_right]
+  apply rsum_congr; intro r _
+  rw [bil_mulr_left, bil_mulr_right]; ring
+
+/-- **the quadratic form of `mass.matrix`** as kinetic energy of the ancestor-sum velocities plus
+the armature term -/
+theorem quadForm_massMatrix (ps : List Int) (cinr : List (Inertia R)) (cdof : List (List (Motion R)))
+    (arm : List (List R)) (X : Nat → Nat → R)
+    (hps : ps.length = cdof.length) (hI : cinr.length = cdof.length) (hwf : PWF ps)
+    (hsym : ∀ x ∈ cinr, SymmI x) :
+    quadForm (massMatrix ps cinr cdof arm) ((dofIdx cdof.length (wAt cdof)).map fun lr => X lr.1 lr.2)
+      = rsum cdof.length (fun k => ke (cinr.getD k dI) (velAnc ps cdof X k))
+        + nsum cdof.length (wAt cdof) (fun l r => armAt arm l r * (X l r * X l r)) := by
+  have hM : massMatrix ps cinr cdof arm
+      = (dofIdx cdof.length (wAt cdof)).map fun lr => (dofIdx cdof.length (wAt cdof)).map fun as =>
+          massEntry ps (crb ps cinr) cdof arm lr.1 lr.2 as.1 as.2 := rfl
+  rw [hM, quadForm_entries]
+  generalize hn : cdof.length = n at *
+  set w := wAt cdof with hw
+  set C := crb ps cinr with hC
+  -- split off the armature
+  have hsplit : ∀ l r, l < n → r < w l →
+      X l r * nsum n w (fun a s => massEntry ps C cdof arm l r a s * X a s)
+        = X l r * nsum n w (fun a s => massOff ps C cdof l r a s * X a s)
+          + armAt arm l r * (X l r * X l r) := by
+    intro l r hl hr
+    have : nsum n w (fun a s => massEntry ps C cdof arm l r a s * X a s)
+        = nsum n w (fun a s => massOff ps C cdof l r a s * X a s)
+          + nsum n w (fun a s => if a = l ∧ s = r then armAt arm l r * X a s else 0) := by
+      rw [← nsum_add]
+      apply nsum_congr; intro a s _ _
+      rw [massEntry_eq]
+      split <;> ring
+    rw [this, nsum_single n w l r hl hr (fun a s => armAt arm l r * X a s)]
+    ring
+  rw [nsum_congr hsplit, nsum_add]
+  congr 1
+  -- the armature-free part
+  let G : Nat → Nat → R := fun l a =>
+    rsum (w l) fun r => rsum (w a) fun s => X l r * (massOff ps C cdof l r a s * X a s)
+  have hQ : nsum n w (fun l r => X l r * nsum n w (fun a s => massOff ps C cdof l r a s * X a s))
+      = rsum n (fun l => rsum n (fun a => G l a)) := by
+    unfold nsum
+    apply rsum_congr; intro l _
+    have : ∀ r, r < w l → X l r * rsum n (fun a => rsum (w a) (fun s => massOff ps C cdof l r a s * X a s))
+        = rsum n (fun a => rsum (w a) (fun s => X l r * (massOff ps C cdof l r a s * X a s))) := by
+      intro r _
+      rw [← rsum_mul_left]
+      apply rsum_congr; intro a _
+      rw [← rsum_mul_left]
+    rw [rsum_congr this, rsum_comm]
+  have hGsymm : ∀ l a, G l a = G a l := by
+    intro l a
+    show rsum (w l) (fun r => rsum (w a) (fun s => X l r * (massOff ps C cdof l r a s * X a s)))
+      = rsum (w a) (fun s => rsum (w l) (fun r => X a s * (massOff ps C cdof a s l r * X l r)))
+    rw [rsum_comm]
+    apply rsum_congr; intro s _
+    apply rsum_congr; intro r _
+    rw [massOff_symm ps C cdof l r a s]; ring
+  have hCs : ∀ l, SymmI (C.getD l dI) := crb_symm ps cinr hsym
+  have hGdiag : ∀ l, G l l = ke (C.getD l dI) (Ulink cdof X l) := by
+    intro l
+    unfold ke
+    rw [bil_Ulink]
+    apply rsum_congr; intro r _
+    apply rsum_congr; intro s _
+    rw [massOff_diag ps C cdof l r s (hCs l)]; ring
+  have hGlt : ∀ l a, a < l → G l a
+      = if (ancs ps l).contains a then bil (C.getD l dI) (Ulink cdof X a) (Ulink cdof X l) else 0 := by
+    intro l a hal
+    by_cases hc : (ancs ps l).contains a = true
+    · rw [if_pos hc, bil_Ulink, rsum_comm]
+      apply rsum_congr; intro r _
+      apply rsum_congr; intro s _
+      rw [massOff_lt ps C cdof l r a s hal, if_pos hc]; ring
+    · rw [if_neg hc]
+      have : ∀ r, r < w l → rsum (w a) (fun s => X l r * (massOff ps C cdof l r a s * X a s))
+          = 0 := by
+        intro r _
+        have : ∀ s, s < w a → X l r * (massOff ps C cdof l r a s * X a s) = 0 := by
+          intro s _
+          rw [massOff_lt ps C cdof l r a s hal, if_neg hc]; ring
+        rw [rsum_congr this, rsum_zero]
+      show rsum (w l) (fun r => rsum (w a) (fun s => X l r * (massOff ps C cdof l r a s * X a s))) = 0
+      rw [rsum_congr this, rsum_zero]
+  have hlow : ∀ l, rsum l (fun a => G l a)
+      = bil (C.getD l dI) (Ulink cdof X l) (vpar ps (velAnc ps cdof X) l) := by
+    intro l
+    rw [rsum_congr (fun a ha => hGlt l a ha), bil_symm (hCs l), ← mrsum_ancs_lt hwf cdof X l,
+      bil_mrsum_left]
+    apply rsum_congr; intro a _
+    rw [bil_ite_left]
+  rw [hQ, rsum_symm_split n G hGsymm, rsum_congr (fun l _ => hGdiag l), rsum_congr (fun l _ => hlow l)]
+  have hcrb := crb_ke n ps cinr (by rw [hps]) hI hwf hsym (Ulink cdof X) (velAnc ps cdof X)
+    (fun l _ => velAnc_rec hwf cdof X l)
+  rw [hcrb, rsum_add, rsum_mul_left]
+  rfl
+
+end doflevel
 end Brax.Gd
